@@ -217,12 +217,18 @@ def input_ham_keys(ctx) -> dict:
         "hs_constant": "continuous-HS constant for propagator_cpmc_continuous: user scripts",
     }
     fi = ctx.p.func("mpi_jax._prep_afqmc")
+    # the Hamiltonian dictionary is the local dict that receives both 'h0' and 'chol' (whatever it is called)
+    stores: dict = {}
     for nd in ast.walk(fi.node):
         if isinstance(nd, ast.Assign):
             for t in nd.targets:
-                if isinstance(t, ast.Subscript) and isinstance(t.value, ast.Name) and \
-                        t.value.id == "ham_data" and isinstance(t.slice, ast.Constant):
-                    out[t.slice.value] = "written by mpi_jax._prep_afqmc"
+                if isinstance(t, ast.Subscript) and isinstance(t.value, ast.Name) and isinstance(t.slice, ast.Constant) \
+                        and isinstance(t.slice.value, str):
+                    stores.setdefault(t.value.id, set()).add(t.slice.value)
+    for name, ks in stores.items():
+        if {"h0", "chol"} <= ks:
+            for k in ks:
+                out[k] = "written by mpi_jax._prep_afqmc"
     if "h0" not in out or "chol" not in out:
         raise AnalysisError("_prep_afqmc no longer writes the Hamiltonian input keys")
     return out
